@@ -391,6 +391,39 @@ example : (match Frappy.Client.Conn.run {} [.peerRst, .call .readline .closed, .
     ∧ connFirstBad {} [.peerRst, .call .readline .closed, .call .shutdown (.otherErr "OSError")] 0 = some 2 := by
   decide
 
+/-- **no line is lost, garbled or reordered by the framing**: along every trace of the connection model - the peer's
+lines arriving whole or in segments (`peerPart`) with `readline` calls returning `None` in between, i.e. with pauses
+longer than the inter-byte time-out - the lines `readline` hands out are exactly the first `read` lines the peer sent,
+in order, and never more than were sent. -/
+theorem lines_in_order (evs : List Ev) (s : St) (h : Frappy.Client.Conn.run {} evs 0 = .ok s) :
+    linesOf evs = List.range s.read ∧ s.read ≤ s.sent := by
+  have h1 := (Frappy.Client.Conn.lines_in_order_from evs {} s 0 h).2
+  refine ⟨by simpa [List.range_eq_range'] using h1, ?_⟩
+  obtain ⟨_, hr⟩ := Frappy.Client.Conn.rel_of_run evs {} s {} 0 Frappy.Client.Conn.rel_init h
+  exact hr.le
+
+/-- non-vacuity: a line arrives in two segments with an idle `readline` in between (the pause exceeds the inter-byte
+time-out), then a second line in three segments; both are handed out whole and in order -/
+example : (match Frappy.Client.Conn.run {} [.peerPart, .call .readline .nothing, .call .readline .nothing, .peerSend,
+      .call .readline (.line 0), .peerPart, .call .readline .nothing, .peerPart, .peerSend, .call .readline (.line 1),
+      .call .readline .nothing] 0 with
+    | .ok s => s.read == 2 && s.sent == 2 && !s.part
+    | .error _ => false) = true
+    ∧ connFirstBad {} [.peerPart, .call .readline .nothing, .peerSend, .call .readline (.line 0)] 0 = none := by
+  decide
+
+/-- sensitivity: a `readline` that forgets the first segment hands out the tail as a line the peer never sent - refused by
+the model and a breach of the contract at that call; one that swallows the whole line and goes on returning `None`
+is refused and flagged as well (a complete line is waiting) -/
+example :
+    connFirstBad {} [.peerPart, .call .readline .nothing, .peerSend, .call .readline (.otherErr "unknown line")] 0 = some 3
+    ∧ (match Frappy.Client.Conn.run {} [.peerPart, .call .readline .nothing, .peerSend,
+          .call .readline (.otherErr "unknown line")] 0 with | .error i => i == 3 | .ok _ => false) = true
+    ∧ connFirstBad {} [.peerPart, .call .readline .nothing, .peerSend, .call .readline .nothing] 0 = some 3
+    ∧ (match Frappy.Client.Conn.run {} [.peerPart, .call .readline .nothing, .peerSend, .call .readline .nothing] 0 with
+        | .error i => i == 3 | .ok _ => false) = true := by
+  decide
+
 end
 
 /-! ## the life cycle across connections: connect(), reconnect threads, disconnect() -/
